@@ -213,7 +213,7 @@ AM = r"^impl ArrayMeta \{"
 FAMILIES["arrmeth"] = {
     "anchor": "src/algorithm/monadic/mod.rs Array::reverse_depth; src/array.rs ArrayMeta mark helpers, ArrayFlags methods, Array::validate, validate_shape, row_slice; src/algorithm/mod.rs ArrayCmpSlice",
     "bound": "byte arrays of shapes [3], [4], [2,2], [2,3]; all 16 flag sets",
-    "header": "use crate::shim::*;\nuse std::ops::{Deref, DerefMut};\nuse std::fmt;\n",
+    "header": "use crate::shim::*;\nuse crate::eco_vec;\nuse std::ops::{Deref, DerefMut};\nuse std::fmt;\n",
     "rewrites": (PUBCRATE, ("R4", r"(?m)^\s*#\[(?:track_caller|inline\(always\)|inline)\]\n", "", "attribute dropped")),
     "dropped": "serde attributes and serde trait bounds (ArrayMetaInner, ArrayRep, ArrayValueSer); ArrayFlags itself (a bitflags! type), MapKeys (opaque token), Array::map / MapKeys::normalized (assumed inverse of each other) are hand models in the shim",
     "groups": [
@@ -228,6 +228,8 @@ FAMILIES["arrmeth"] = {
             {"kind": "block", "name": "trait ArrayCmp", "file": "src/array.rs", "header": r"^pub trait ArrayCmp<U = Self> \{"},
             {"kind": "block", "name": "impl ArrayCmp for u8", "file": "src/array.rs", "header": r"^impl ArrayCmp for u8 \{"},
             {"kind": "block", "name": "struct ArrayCmpSlice", "file": "src/algorithm/mod.rs", "header": r"^#\[derive\(Debug\)\]\npub\(crate\) struct ArrayCmpSlice<'a, T>\(pub &'a \[T\]\);", "nobrace": True},
+            {"kind": "block", "name": "impl Clone for ArrayCmpSlice", "file": "src/algorithm/mod.rs", "header": r"^impl<T> Clone for ArrayCmpSlice<'_, T> \{"},
+            {"kind": "lines", "name": "impl Copy for ArrayCmpSlice", "file": "src/algorithm/mod.rs", "regex": r"^impl<T> Copy for ArrayCmpSlice<'_, T> \{\}\n"},
             {"kind": "block", "name": "impl PartialEq for ArrayCmpSlice", "file": "src/algorithm/mod.rs", "header": r"^impl<T: ArrayValue> PartialEq for ArrayCmpSlice<'_, T> \{"},
             {"kind": "lines", "name": "impl Eq for ArrayCmpSlice", "file": "src/algorithm/mod.rs", "regex": r"^impl<T: ArrayValue> Eq for ArrayCmpSlice<'_, T> \{\}\n"},
             {"kind": "block", "name": "impl PartialOrd for ArrayCmpSlice", "file": "src/algorithm/mod.rs", "header": r"^impl<T: ArrayValue> PartialOrd for ArrayCmpSlice<'_, T> \{"},
@@ -272,6 +274,9 @@ FAMILIES["arrmeth"] = {
         ] + [
             {"kind": "fn", "name": "Array::" + f, "file": "src/algorithm/monadic/sort.rs", "impl": r"^impl<T: ArrayValue> Array<T> \{", "fn": f}
             for f in ["rise_indices", "fall_indices", "is_sorted_up", "is_sorted_down"]
+        ] + [
+            {"kind": "fn", "name": "Array::" + f, "file": "src/algorithm/monadic/mod.rs", "impl": r"^impl<T: ArrayValue> Array<T> \{", "fn": f}
+            for f in ["classify", "deduplicate", "unique", "count_unique"]
         ]},
     ],
 }
